@@ -1812,6 +1812,11 @@ func (kmc *KeystoreManagerForPoC) ChangePrivPassphrase(oldPrivPass, newPrivPass 
 		addrManager.privPassphraseSalt = passphraseSalt
 		addrManager.hashedPrivPassphrase = hashedPassphrase
 	}
+	if !kmc.unlocked {
+		// the wallet is locked: the freshly derived master private key must
+		// not stay in memory (every keystore now shares newMasterPrivKey)
+		newMasterPrivKey.Zero()
+	}
 	return nil
 }
 
